@@ -335,3 +335,116 @@ func lookupIntConst(x *Ctx, rel, name string) (int64, bool) {
 	}
 	return constant.Int64Val(constant.ToInt(c.Val()))
 }
+
+// mustDerive reports whether EVERY definition that can reach v satisfies pred:
+// φ-nodes need all edges, spilled locals all stores, parameters all callers'
+// arguments (two levels), struct fields all their writes in the repository.
+// Values read out of maps, slices, channels or other calls do not derive.
+func (x *Ctx) mustDerive(v ssa.Value, pred func(ssa.Value) bool) bool {
+	seen := map[ssa.Value]bool{}
+	var walk func(v ssa.Value, depth int) bool
+	walk = func(v ssa.Value, depth int) bool {
+		if v == nil {
+			return false
+		}
+		if pred(v) {
+			return true
+		}
+		if seen[v] {
+			return true // a cycle adds no new definition
+		}
+		seen[v] = true
+		switch y := v.(type) {
+		case *ssa.Phi:
+			for _, e := range y.Edges {
+				if !walk(e, depth) {
+					return false
+				}
+			}
+			return len(y.Edges) > 0
+		case *ssa.Extract:
+			return walk(y.Tuple, depth)
+		case *ssa.ChangeType:
+			return walk(y.X, depth)
+		case *ssa.Convert:
+			return walk(y.X, depth)
+		case *ssa.MakeInterface:
+			return walk(y.X, depth)
+		case *ssa.ChangeInterface:
+			return walk(y.X, depth)
+		case *ssa.TypeAssert:
+			return walk(y.X, depth)
+		case *ssa.Parameter:
+			if depth >= 2 {
+				return false
+			}
+			args := x.callerArgs(y.Parent(), y)
+			if len(args) == 0 {
+				return false
+			}
+			for _, a := range args {
+				if !walk(a, depth+1) {
+					return false
+				}
+			}
+			return true
+		case *ssa.FreeVar:
+			// bound at the MakeClosure in the parent
+			fn := y.Parent()
+			idx := -1
+			for i, fv := range fn.FreeVars {
+				if fv == y {
+					idx = i
+				}
+			}
+			ok, n := true, 0
+			if p := fn.Parent(); p != nil && idx >= 0 {
+				eng.Instrs(p, func(in ssa.Instruction) {
+					if mc, isMC := in.(*ssa.MakeClosure); isMC && mc.Fn == ssa.Value(fn) && idx < len(mc.Bindings) {
+						n++
+						if !walk(mc.Bindings[idx], depth) {
+							ok = false
+						}
+					}
+				})
+			}
+			return ok && n > 0
+		case *ssa.UnOp:
+			if y.Op != token.MUL {
+				return false
+			}
+			switch a := y.X.(type) {
+			case *ssa.Alloc:
+				sts := eng.StoresTo(a, nil)
+				if len(sts) == 0 {
+					return false
+				}
+				for _, st := range sts {
+					if !walk(st.Val, depth) {
+						return false
+					}
+				}
+				return true
+			case *ssa.FreeVar, *ssa.Parameter:
+				return walk(a, depth)
+			case *ssa.FieldAddr:
+				fr, _, ok := eng.FieldRefOf(a)
+				if !ok || depth >= 2 {
+					return false
+				}
+				ws := eng.FieldWrites(x.RepoFuncs(), func(q eng.FieldRef) bool { return q.Var == fr.Var })
+				if len(ws) == 0 {
+					return false
+				}
+				for _, w := range ws {
+					if !walk(w.Instr.(*ssa.Store).Val, depth+1) {
+						return false
+					}
+				}
+				return true
+			}
+		}
+		return false
+	}
+	return walk(v, 0)
+}
